@@ -355,6 +355,10 @@ class MailboxData(MailboxDataInterface[Message]):
             except (KeyError, FileNotFoundError):
                 return None
         async with UidList.with_write(destination._path) as uidl:
+            # the file keeps its name: a record left behind when it was moved
+            # out of the destination earlier would revive its old UID
+            for stale in [r for r in uidl.records if r.key == rec.key]:
+                uidl.remove(stale.uid)
             new_rec = Record(uidl.next_uid, rec.fields, new_filename)
             uidl.next_uid += 1
             uidl.set(new_rec)
